@@ -43,6 +43,11 @@ type barEnv struct {
 	flushSeq  int64
 	problems  []EngProblem
 	nextFlush int
+	// flushes without an object (nitro does this for an empty garbage list): their destructor
+	// calls cannot be told apart, so they are counted
+	nilFlushes   int64
+	nilDestructs int64
+	callbacks    int64 // all destructor calls, nil or not
 }
 
 func (b *barEnv) problem(prop, kind, f string, a ...interface{}) {
@@ -60,7 +65,11 @@ func newBarEnv() *barEnv {
 	cfg.Malloc = func(n int) unsafe.Pointer { buf := make([]byte, n+8); return unsafe.Pointer(&buf[0]) } // only head/tail are allocated; kept alive by the skiplist
 	cfg.Free = func(unsafe.Pointer) {}
 	cfg.BarrierDestructor = func(ref unsafe.Pointer) {
+		atomic.AddInt64(&b.callbacks, 1)
 		if ref == nil {
+			if d, f := atomic.AddInt64(&b.nilDestructs, 1), atomic.LoadInt64(&b.nilFlushes); d > f {
+				b.problem("C16", "destructed-twice", "the destructor has run %d times for flushes without an object, only %d such flushes were made", d, f)
+			}
 			return
 		}
 		r := (*flushRec)(ref)
@@ -119,6 +128,13 @@ func (b *barEnv) flush(actor int) *flushRec {
 	return r
 }
 
+// flushNil is a FlushSession call without an object.
+func (b *barEnv) flushNil() {
+	atomic.AddInt64(&b.nilFlushes, 1)
+	Tick()
+	b.ab.FlushSession(nil)
+}
+
 // judge evaluates the safety oracles (C16) and, at quiescence, the liveness
 // oracles (C17).
 func (b *barEnv) judge(quiescent bool) {
@@ -156,6 +172,12 @@ func (b *barEnv) judge(quiescent bool) {
 		}
 	}
 	if quiescent {
+		if d, f := atomic.LoadInt64(&b.nilDestructs), atomic.LoadInt64(&b.nilFlushes); d < f {
+			b.problem("C17", "pending-at-quiescence", "every accessor has released and no call is in progress, but the destructor has run only %d times for the %d FlushSession calls made without an object", d, f)
+		}
+		if _, freed, _, _ := b.ab.GetStats(); freed != atomic.LoadInt64(&b.callbacks) {
+			b.problem("C16", "destructed-without-callback", "the barrier destructed %d sessions but the destructor callback ran %d times (exactly once per flush)", freed, atomic.LoadInt64(&b.callbacks))
+		}
 		alloc, freed, queued, _ := b.ab.GetStats()
 		if alloc-freed != 1 || queued != 0 {
 			b.problem("C17", "stats-at-quiescence", "barrier statistics at quiescence: allocated=%d freed=%d queued=%d (expected allocated-freed=1, queued=0)", alloc, freed, queued)
@@ -186,6 +208,10 @@ var barScenarios = []bScenario{
 	{"acq;flush;rel || acq;flush;rel", "", []string{"AFR", "AFR"}},
 	{"acq-rel || acq-rel || flush || flush", "", []string{"AR", "AR", "F", "F"}},
 	{"release(t1) || flush;flush || acq-rel", "A", []string{"r", "FF", "AR"}},
+	// N = FlushSession(nil): a flush without an object still gets its destructor call
+	{"acq-rel || flush(nil);flush", "", []string{"AR", "NF"}},
+	{"hold || flush;flush(nil)", "", []string{"AR", "FN"}},
+	{"release(t1) || release(t2) after flush and flush(nil)", "AFAN", []string{"r", "r"}},
 }
 
 var fullPoints = []int{skiplist.VpAcqLoaded, skiplist.VpAcqIncremented, skiplist.VpRelBeforeDec, skiplist.VpRelLatched, skiplist.VpRelEnqueued,
@@ -237,6 +263,8 @@ func runBarScenario(sc bScenario, points []int, maxSched int, randomExtra int, s
 				setupTokens = append(setupTokens, b.acquire(100+len(setupTokens)))
 			case 'F':
 				b.flush(100)
+			case 'N':
+				b.flushNil()
 			}
 		}
 		for i, prog := range sc.Progs {
@@ -258,6 +286,8 @@ func runBarScenario(sc bScenario, points []int, maxSched int, randomExtra int, s
 						b.release(r)
 					case 'F':
 						b.flush(i)
+					case 'N':
+						b.flushNil()
 					}
 					a.ret(ctl)
 				}
@@ -360,7 +390,11 @@ func barStress(c *rt.C, r *rand.Rand) *barEnv {
 				}
 			}()
 			for i := 0; i < rounds; i++ {
-				b.flush(1000 + f)
+				if (i+f)%4 == 3 {
+					b.flushNil()
+				} else {
+					b.flush(1000 + f)
+				}
 				runtime.Gosched()
 			}
 		}(f)
@@ -440,7 +474,7 @@ func init() {
 		}
 		return 2*len(barScenarios) + 28
 	}
-	rule := "cases 0..2S-1 explore the S=13 scripted scenarios ({acq-rel ‖ flush}, {A ‖ A ‖ F}, {A ‖ F ‖ F}, {hold ‖ F;F}, {acq;flush;rel ‖ A}, {release(t1) ‖ release(t2) after two flushes}, nested holder, 3-actor variants) under the serialized controller: every hook point of Acquire/Release/FlushSession/doCleanup is a scheduling point, exactly one actor runs between points, the choice tree is enumerated depth-first by re-execution (first S cases at the granularity the properties name, next S at full granularity) up to a bound, then seeded random schedules; remaining cases are real-concurrency stress rounds (1-16 accessors with nested holds and flushes while holding, 1-4 flushers) judged with conservative logical stamps. " +
+	rule := "cases 0..2S-1 explore the S=16 scripted scenarios ({acq-rel ‖ flush}, {A ‖ A ‖ F}, {A ‖ F ‖ F}, {hold ‖ F;F}, {acq;flush;rel ‖ A}, {release(t1) ‖ release(t2) after two flushes}, nested holder, 3-actor variants, flushes without an object) under the serialized controller: every hook point of Acquire/Release/FlushSession/doCleanup is a scheduling point, exactly one actor runs between points, the choice tree is enumerated depth-first by re-execution (first S cases at the granularity the properties name, next S at full granularity) up to a bound, then seeded random schedules; remaining cases are real-concurrency stress rounds (1-16 accessors with nested holds and flushes while holding, 1-4 flushers) judged with conservative logical stamps. " +
 		"evaluations = schedules executed + stress rounds; distinct = distinct (actor, point) arrival-order signatures"
 	rt.Register(&rt.Prop{
 		ID: "C16", Level: "exploration",
